@@ -566,6 +566,25 @@ pub fn build_pool(shipped_text: String, shipped_table: Vec<Entry>, n_rendered: u
             let k = 1 + (i / 8) % 20;
             table = real[k..].to_vec();
             tclass = "suffix";
+            if (i / 8) % 4 == 3 {
+                // ...or starts EARLIER than 1972: a timeline with whole-second stand-ins for the
+                // 1961-1971 rate offsets, or one that states "0 s from 1900-01-01" explicitly, or
+                // one with entries on either side of 1970-01-01 (2 208 988 800 s, where a UNIX
+                // count starts). The format does not care; a loader may refuse, not reinterpret.
+                let early: Vec<Entry> = match (i / 32) % 3 {
+                    0 => vec![
+                        (ntp_seconds_of_date(1961, 1, 1), 1),
+                        (ntp_seconds_of_date(1964, 1, 1), 3),
+                        (ntp_seconds_of_date(1966, 1, 1), 4),
+                        (ntp_seconds_of_date(1968, 2, 1), 6),
+                        (ntp_seconds_of_date(1970, 1, 1), 8),
+                    ],
+                    1 => vec![(0, 0)],
+                    _ => vec![(2_208_988_799, 5), (2_208_988_800, 6)],
+                };
+                table = early.into_iter().chain(real.iter().copied()).collect();
+                tclass = "early";
+            }
         }
         if i % 8 == 2 {
             style.hash_line_first = true;
@@ -633,7 +652,7 @@ pub fn build_pool(shipped_text: String, shipped_table: Vec<Entry>, n_rendered: u
         // length or entry count; a check that the list starts in 1972) are judged by O1 only: a
         // refusal is not a wrong answer, a silently truncated table is.
         let oversized = i % 8 == 7 && [340usize, 700, 1400, 2800][(i / 8) % 4] >= 1400;
-        let mut strict = !far && !stale && !oversized && tclass != "densefuture" && tclass != "suffix";
+        let mut strict = !far && !stale && !oversized && tclass != "densefuture" && tclass != "suffix" && tclass != "early";
         if i % 8 == 3 {
             // systematic: which liberties a lenient image takes depends on its rank, not on a draw
             let k = i / 8;
